@@ -7,8 +7,10 @@ CHECKS = [
     {"property_id": "C17", "level": "exploration",
      "text": "Hypothesis-generated mesh scenarios: a master and 1..8 (quick) / 1..12 (thorough) RF24Mesh / RF24MeshNoMaster nodes with "
              "drawn IDs, start offsets and MCU timing models join concurrently, run a drawn script of lookups / sends / writes / "
-             "check_connection / release (also right after a long message) / re-join / power loss one call at a time, then look IDs up concurrently in staggered rounds; "
-             "plus an enumerated sweep of a relay and its child asking -3..+3 ms apart; judged against the master's public table and "
+             "check_connection / release (also right after a long message, or by the master's application behind the node's back) / "
+             "re-join / power loss one call at a time, then look IDs up concurrently in staggered rounds; "
+             "plus enumerated families: a relay and its child asking -3..+3 ms apart, repeated identical lookups with relay traffic in "
+             "between, every node sending to every other for ID sets that coincide numerically with address values; judged against the master's public table and "
              "all queues; with a loss word only no-exception / termination / valid-or-None are claimed.  Schedules are sampled: the "
              "weakest claim of the set",
      "design_ref": "4/C17", "note": SIM_NOTE + "; in concurrent phases an answer of -1 (no answer) is accepted; nodes orphaned by a "
@@ -95,7 +97,8 @@ CHECKS = [
              "(routing-only, network, mesh node, unassigned mesh node, mesh master) and level 0..4 receives, through the simulated "
              "air, a bounded-exhaustive set of structured frames (256 types x length classes x destination x origin classes), "
              "an address request from every one of the 781 well-formed origin addresses to a master, mesh-master histories with full "
-             "parents, payload batches before one update(), Hypothesis-generated payload sequences and a coverage-guided atheris/libFuzzer campaign (16 processes, empty and "
+             "parents, every sequence of 3 (thorough: 4) fragment / plain frames from one origin with multicast relaying, "
+             "fragmentation and re-addressing varied, payload batches before one update(), Hypothesis-generated payload sequences and a coverage-guided atheris/libFuzzer campaign (16 processes, empty and "
              "seeded corpora) whose target contains the same oracle: update() returns normally within 3 s of virtual time and (for "
              "the enumerated and generated parts named in DESIGN 4b) within a deterministic budget of executed library lines, frames "
              "rejected by the reference predicate cause no queue growth and no transmission",
